@@ -122,6 +122,26 @@ fixed("C13-union-mutates-operand", "C13", "efbdc9f",
       "the union operator appended to and sorted the caller's node-set in place ($v | x reordered / overwrote a caller-held slice)",
       witness="known/C13-union-mutates-operand.json")
 
+fixed("C16-truncated-json-accepted", "C16", "736f080",
+      "truncated JSON ('[1,2', '{\"a\":') was returned as a shorter tree with a nil error",
+      witness="known/C16-truncated-json-accepted.json")
+fixed("C17-xmlns-xlink-attribute", "C17", "df4fd56",
+      "xmlns:xlink on foreign (svg/math) elements survived as an attribute named 'xlink'",
+      witness="known/C17-xmlns-xlink-attribute.json")
+fixed("C09-xml-declaration-pi", "C09", "96b9f88", "the XML declaration became a processing-instruction child of the root",
+      witness="known/C09-xml-declaration-pi.json")
+fixed("C09-top-level-whitespace", "C09", "46e2d1f",
+      "white space between prolog/epilog items became text children of the root; a DOCTYPE was reported as an end-element event",
+      witness="known/C09-top-level-whitespace.json")
+fixed("C09-prefixed-namespace-declarations", "C09", "08620d4", "xmlns:p declarations produced no namespace node",
+      witness="known/C09-prefixed-namespace-declarations.json")
+fixed("C09-cdata-splits-text", "C09", "78afeb2",
+      "CDATA sections split one text node into several and <![CDATA[]]> produced an empty text node",
+      witness="known/C09-cdata-splits-text.json")
+fixed("C09-default-namespace-undeclared", "C09", "0dfa50f",
+      "xmlns=\"\" left a namespace node with empty prefix and empty URI on the element and its descendants",
+      witness="known/C09-default-namespace-undeclared.json")
+
 opened("C06-round-negative-tie", "C06",
        "round() rounds negative ties away from zero (round(-1.5) = -2, XPath 1.0: -1); the repository's own "
        "TestFunctionRound pins this value, so it cannot be repaired without editing the suite; substring() bounds share the helper",
